@@ -256,6 +256,14 @@ events:
 				released = true
 				gate.Release()
 			}
+		case ev == "D":
+			// a frame that re-uses the target's tag while the target is in flight (what a
+			// faulty client does); whatever the server makes of it, the flush rules hold
+			if released {
+				continue // the tag is free again: that would be an ordinary request
+			}
+			p.s.Send(refcodec.Encode(withTag(tStatfs(100), tagTarget)))
+			time.Sleep(20 * time.Millisecond)
 		case ev == "U":
 			// statfs takes no path lock, so it is unordered even with a held rename
 			r, err := p.s2.Call(withTag(tStatfs(100), uint16(20+ei)))
@@ -507,7 +515,11 @@ func genFlushCase(rt *rapid.T) flushCase {
 		case 6:
 			c.Events = append(c.Events, "O")
 		default:
-			c.Events = append(c.Events, "A")
+			if !rel && rapid.IntRange(0, 2).Draw(rt, "dup") == 0 {
+				c.Events = append(c.Events, "D")
+			} else {
+				c.Events = append(c.Events, "A")
+			}
 		}
 	}
 	return c
@@ -547,6 +559,7 @@ func TestC14(t *testing.T) {
 	// enumerated: every target x hold position x every order of {F1, F2 (chained or not), R, U}
 	if env.Shard == 0 {
 		evsets := [][]string{
+			{"D", "F1:t", "R"}, {"F1:t", "D", "R"}, {"F1:t", "D", "F2:t", "R"},
 			{"F1:t", "R"}, {"F1:t", "U", "R"}, {"F1:t", "F2:t", "R"}, {"F1:t", "F2:f1", "R"}, {"F1:t", "F2:f1", "F3:f2", "R"},
 			{"F1:t", "O", "I", "A", "R"}, {"F1:t", "R", "F2:t"}, {"R", "F1:t"}, {"O"}, {"I"}, {"A"}, {"F1:t"},
 			{"F1:t", "H", "R"}, {"F1:t", "X", "R"}, {"F1:t", "F2:f1", "H", "U", "R"},
